@@ -66,3 +66,30 @@ def evalSendHist (args : List String) : String :=
     | _, _, _, _ => "bad-op"
   | _ => "bad-op"
 end Bmc.Driver
+
+namespace Bmc.Driver
+open Bmc Bmc.Wire Bmc.Crypto Bmc.Proto
+
+/-- `sendseq <auth> <integ> <k1> <k2> <localID> <remoteID> <inbound> <entropy> <script>|<script>|…`: a history of Get Device ID
+    commands on one session; `W` (the socket refuses the write) is, to the library, a failed Send like `L`: the attempt
+    consumed its sequence number and ends the command -/
+def evalSendSeq (args : List String) : String :=
+  match args with
+  | [_auth, integ, k1, k2, lid, rid, inb, ent, scripts] =>
+    match [integ, lid, rid, inb].mapM String.toNat?, parseHex k1, parseHex k2, parseHex ent,
+          (scripts.splitOn "|").mapM (fun s => parseScript (s.replace "W" "L")) with
+    | some [integ, lid, rid, inb], some k1, some k2, some ent, some scripts =>
+      let c : Cmd := { fn := 0x06, cmd := 0x01 }
+      let rec go (ss : List (List Outcome)) (s : Sess) (ivs : List Bytes) (sent : List Bytes) (res : List String) :
+          Sess × List Bytes × List String :=
+        match ss with
+        | [] => (s, sent, res)
+        | sc :: rest =>
+          let (s', out, r) := send realOps s c ivs sc
+          go rest s' (ivs.drop out.length) (sent ++ out) (res ++ [match r with | .ok _ _ => "ok" | _ => "err"])
+      let (s', sent, res) := go scripts { inbound := inb, localID := lid, remoteID := rid, integ := integ, k1 := k1, k2 := k2 }
+        (chunk16 (ent.length / 16) ent) [] []
+      s!"seqs={sent.map fun d => le32 (d.drop 10)} res=[{", ".intercalate res}] inbound={s'.inbound}"
+    | _, _, _, _, _ => "bad-op"
+  | _ => "bad-op"
+end Bmc.Driver
